@@ -117,6 +117,18 @@ def run(ctx, scale=1.0):
                 check_case(drv, {"type": "number", "multipleOf": m}, [x], out, stats)
         for schema in ({"type": "string"}, {"maximum": 1}, {"type": "integer", "multipleOf": 7}, {"enum": [1]}, {}):
             check_case(drv, schema, [10 ** 5000, -(10 ** 4400), [10 ** 5000]], out, stats)
+        # patterns that are valid on their own but do not survive being glued together, wrapped or re-flagged
+        tricky = ["(?P<id>a+)", "(?P<id>b+)", "(?i)abc", "(?s)a.b", "(a)\\1", "(?=a)a", "(?x) a b ", "^(?:a|b)$", "a{2,3}", "[\\]\\[]", "\\Z", "(?m)^b"]
+        for _ in range(int((30 if ctx["tier"] == "quick" else 600) * scale)):
+            pats = rng.sample(tricky, rng.choice([1, 2, 2, 3]))
+            schema = {"patternProperties": {p: rng.choice([{}, {"type": "integer"}, True]) for p in pats}}
+            if rng.random() < 0.5:
+                schema.update({"type": "object", "title": "Pat"})
+            if rng.random() < 0.3:
+                schema["additionalProperties"] = False
+            vals = [{"aa": 1, "bb": 2}, {"ABC": 1, "abc": "x"}, {"a\nb": 1}, {"ab": 1, "b": 2, "]": 3}, {}, {"zzz": 1}]
+            check_case(drv, schema, vals, out, stats)
+            check_case(drv, {"type": "string", "pattern": rng.choice(tricky)}, ["aa", "ABC", "a\nb", "ab", "", "]"], out, stats)
         for s in ("9" * 20, "1" * 400, "0000-00-00", "\u0000", "２０２０-01-01"):
             check_case(drv, {"format": "date-time"}, [s], out, stats)
             check_case(drv, {"format": "uuid"}, [s], out, stats)
